@@ -21,7 +21,7 @@ LEVEL = "exploration"
 FILLS = ["zero", "a5", "ff", "prng", "stale"]
 POLICIES = ["stable", "reversed", "rotated", "prng"]
 RULE = (
-    "C01-space arrays with zero elements, equal leading terms, negative leading coefficients and ties in (lead exponent, lead "
+    "C01-space arrays with zero elements, equal leading terms, negative leading coefficients, integer coefficients beyond 2**53 that differ by one and ties in (lead exponent, lead "
     "coefficient); graded/reverse flags, sort options, target dimensions 1..5; each case runs under (tie policy, heap fill) "
     "environments: stable/zero plus seeded others (quick: 3 environments, thorough: all 20). Distinct non-trivial = distinct "
     "(case, environment) where the polynomial has >=2 terms of equal total degree (tie seam has a choice) or the operation "
